@@ -17,7 +17,8 @@ RULE = ("C01/C02 programs; each (program, seed) is run twice with identical deci
         "at a random subset of suspension/probe points repeated 1-3 times, in trickery and in referents mode; the "
         "event traces (values, enter/exit events, exceptions, result) must be equal; around every extraction the "
         "refcounts of live managers, of for-loop iterators that live only on the value stack and of the frame "
-        "return to baseline once results are dropped; after the target finishes all managers/iterators die. "
+        "return to baseline once results are dropped, and interpreter-wide settings (collector on/off and thresholds, "
+        "trace/profile functions, recursion limit, switch interval) are as before; after the target finishes all managers/iterators die. "
         "non-trivial = twin pair with >=1 extraction at a point with >=1 active context; distinct by "
         "(interpreter, mode, program, seed)")
 ASSUMPTIONS = [
@@ -34,6 +35,8 @@ REQUIRED_COUNTERS = {"twin_pairs": {"quick": 3000, "thorough": 50000},
                      "weakref_death_checks": {"quick": 1000, "thorough": 20000},
                      "refcount_checks_without_collector": {"quick": 2000, "thorough": 30000},
                      "first_extraction_of_the_process_checked": {"quick": 8, "thorough": 8},
+                     "interpreter_settings_checks_gc_on": {"quick": 1000, "thorough": 20000},
+                     "interpreter_settings_checks_gc_off": {"quick": 1000, "thorough": 20000},
                      "tree_objects_checked_for_retention": {"quick": 5000, "thorough": 100000}}
 SHARD_TIMEOUT = {"quick": 400, "thorough": 5400}
 INTERPS = ["3.12", "3.11", "3.10", "3.9"]
@@ -90,6 +93,7 @@ def classify_crash(spec, signum, tail):
 
 def worker(spec):
     import gc
+    import threading
     import weakref
     # arm the async generator hooks before stackscope is imported (its glue creates one)
     unclosed = []
@@ -192,6 +196,10 @@ def worker(spec):
         return ([sys.getrefcount(m) for m in mgrs], [sys.getrefcount(i) for i in registry],
                 [sys.getrefcount(f) for f in frames])
 
+    def interpreter_settings():
+        return (gc.isenabled(), gc.get_threshold(), gc.get_debug(), sys.gettrace(), sys.getprofile(),
+                sys.getrecursionlimit(), sys.getswitchinterval(), threading.get_ident())
+
     def extract_and_monitor(run, do_extract, frames, info, info_mode="running"):
         """perform 1-3 extractions; check equality and that refcounts return to baseline"""
         orng = state["orng"]
@@ -203,8 +211,20 @@ def worker(spec):
             # warm-up: reading frame.f_locals makes CPython cache a snapshot dict on the frame,
             # which holds its own references to the locals until the frame finishes; that is the
             # frame's doing, not a reference held by stackscope, so it is taken before the baseline
+            # (the warm-up also carries the check of interpreter-wide settings, with the collector switched on for
+            # half of them: what the program had chosen must still be in force afterwards)
+            if orng.random() < 0.5:
+                gc.enable()
+            g0 = interpreter_settings()
             warm = do_extract()
+            g1 = interpreter_settings()
+            gc.disable()
             del warm
+            res.count("interpreter_settings_checks")
+            res.count("interpreter_settings_checks_gc_" + ("on" if g0[0] else "off"))
+            settings_problem = None
+            if g0 != g1:
+                settings_problem = "interpreter-wide settings changed by an extraction: %r -> %r" % (g0, g1)
             gc.collect(1)  # in running mode the result holds the monitor's own frames: cycles
             gc.collect()
             before = refsnap(run, registry, frames)
@@ -213,7 +233,7 @@ def worker(spec):
         any_ctx = any(fr.contexts for fr in sts[0].frames)
         if any_ctx:
             state["pair_nontrivial"] = True
-        problems = []
+        problems = [settings_problem] if settings_problem else []
 
         def stable(st):
             # frames of the monitor itself (this function, the lambda) are new on every call
